@@ -144,6 +144,29 @@ func runC08(tier string, seed uint64) {
 						}
 					}
 				}
+				// a surplus that consists of line terminators is a surplus like any other (a text body whose
+				// declared length leaves its last newline out)
+				restore := func(r Resp) {
+					snapshot()
+					if r.Status == 200 && key != "obj" {
+						s.Delete(b, key)
+					}
+					if r.Status == 200 && key == "obj" {
+						s.Put(b, "obj", []byte("the previous object"), []KV{{"X-Amz-Meta-Keep", "me"}, {"Content-Type", "text/x-prev"}})
+					}
+				}
+				for _, tb := range [][]byte{[]byte("text line\n"), []byte("text line\r\n"), []byte("a\r\n\r\n"), []byte("\n")} {
+					for _, cut := range []int{1, 2, 4} {
+						if cut > len(tb) || strings.Trim(string(tb[len(tb)-cut:]), "\r\n") != "" {
+							continue
+						}
+						restore(s.PutRaw(b, key, [][2]string{cl(len(tb) - cut)}, tb, -1))
+						restore(s.PutRaw(b, key, [][2]string{cl(len(tb) - cut), {"Content-MD5", b64md5(tb)}}, tb, -1))
+						nontrivial(fmt.Sprint(kind, noInt, key, "newline-surplus", len(tb), cut))
+					}
+				}
+				restore(s.ChunkedPut(b, key, []byte("chunked text\r\n"), []int{5}, nil, false, len("chunked text")))
+				restore(s.ChunkedPut(b, key, []byte("chunked text\n"), []int{7}, nil, true, len("chunked text")))
 				// aws-chunked uploads: declared decoded length exact, short by one, long by one, zero
 				for _, pl := range [][]byte{[]byte("chunked payload of some bytes"), []byte("z")} {
 					for _, declared := range []int{len(pl), len(pl) - 1, len(pl) + 1, 0} {
